@@ -1,4 +1,4 @@
--- GENERATED on every run by harness/core/py2lean_tf.py from control/xferfcn.py (__rmul__ 5be3fff553fba6238856d8b5f4fe795d5a74a0da6abfdba43ef30854f29f7141).  Do not edit.
+-- GENERATED on every run by harness/core/py2lean_tf.py from control/xferfcn.py (__rmul__ 80c1f7543a0e81080d5f396374e8852ac462e1fa05cdf20538552b5712b6c32b).  Do not edit.
 import CtrlVerif.Model.PyTF
 import CtrlVerif.Generated.TFAddSiso
 
@@ -7,7 +7,7 @@ namespace CtrlVerif.Generated.TF
 open CtrlVerif
 
 /-- `control/xferfcn.py:TransferFunction.__rmul__` as the source text says it (sha256 of the function text
-5be3fff553fba6238856d8b5f4fe795d5a74a0da6abfdba43ef30854f29f7141).
+80c1f7543a0e81080d5f396374e8852ac462e1fa05cdf20538552b5712b6c32b).
 Defaults: none. -/
 def rmul {K : Type} [Field K] [DecidableEq K] (self : DTF K) (other : PyTF.Operand K) :
     Except Err (DTF K) :=
@@ -88,7 +88,7 @@ def rmul {K : Type} [Field K] [DecidableEq K] (self : DTF K) (other : PyTF.Opera
                             let t23 ← Generated.TF.addSiso t19 t20 t21 t22
                             let num ← PyTF.PolyArr.setItem num i j t23.1
                             let den ← PyTF.PolyArr.setItem den i j t23.2
-                            pure (num_summand, den_summand, num, den)) : Except Err (List (List K) × List (List K) × PyTF.PolyArr K × PyTF.PolyArr K))) (num_summand, den_summand, num, den) (PyArith.range 0 ninputs)
+                            pure (num_summand, den_summand, num, den)) : Except Err (List (List K) × List (List K) × PyTF.PolyArr K × PyTF.PolyArr K))) (num_summand, den_summand, num, den) (PyArith.range 0 (PyTF.ninputs other))
                       let num_summand : List (List K) := t24.1
                       let den_summand : List (List K) := t24.2.1
                       let num : PyTF.PolyArr K := t24.2.2.1
